@@ -203,7 +203,8 @@ PP_EVENT_KINDS = {
     "cond-open": ["#ifdef {N}", "#ifndef {N}", "#if {N} > 0", "#if defined({N}) && {N}"],
     "cond-mid": ["#elif {N}", "#else", "#elif defined({N})"],
     "cond-close": ["#endif"],
-    "code": ["  integer :: {n}", '#include "{n}.h"', "  end if", "contains"],
+    "include": ['#include "{n}.h"', '#include "{m}.h"', "#include '{n}.h'"],
+    "code": ["  integer :: {n}", "  end if", "contains"],
 }
 
 
@@ -219,6 +220,34 @@ def pp_story_st(draw, max_events=14):
     for kind, variant, other in evs:
         a, b = (n2, n1) if other == 0 else (n1, n2)
         tmpl = PP_EVENT_KINDS[kind][variant % len(PP_EVENT_KINDS[kind])]
-        lines.append(tmpl.replace("{N}", a).replace("{M}", b).replace("{n}", a.lower()))
+        lines.append(tmpl.replace("{N}", a).replace("{M}", b).replace("{n}", a.lower()).replace("{m}", b.lower()))
     lines.append(draw(st.sampled_from(["end", "end program p", "end module m", ""])))
+    return {"text": "\n".join(lines) + "\n"}
+
+
+# ------------------------------------------------------------------ repetition stress (regex backtracking, deep nesting)
+STRESS_PREFIX = ["x = F(", "call s(", "integer :: a(", "use m, only: ", "type(", "print *, ", "if (", "#if ", "#define G(", "a%b%", "character(len=",
+                 "x = '", "  &", "interface operator(", "procedure(", "class(", "integer, dimension(", "data a /", "real(kind=", "select case (",
+                 "associate (a => ", "x = [", "write(*,'(", "subroutine s(", "function f(", "enum, bind(", "import :: ", "public :: ", "#include \"",
+                 "10 format(", "where (", "do i = ", "x = F(G(", "end ", "contains ", "module procedure "]
+STRESS_UNIT = ["1,", "a,", "(", ")", "a%", "'", '"', "&", " ", "a=>b,", "(1,", "=>", "::", "!", ";", "\\", "defined(", "||", "x y ", "a(", "F(", "1+", "=",
+               ",", "a_", "%", "//", "(/", "[", "::a", " ,", "''", "&&", "#", "\t"]
+
+
+@st.composite
+def stress_st(draw):
+    """A few macro definitions with many parameters, then lines made of a statement prefix followed by one or two short units
+    repeated many times, closed or left open: the shape that exposes super-linear pattern matching."""
+    lines = []
+    for name in draw(st.lists(st.sampled_from(["F", "G"]), max_size=2, unique=True)):
+        k = draw(st.integers(1, 12))
+        lines.append(f"#define {name}(" + ",".join(f"p{i}" for i in range(k)) + ") p0")
+    lines.append(draw(st.sampled_from(["program p", "module m", "subroutine s(a)", ""])))
+    for _ in range(draw(st.integers(1, 3))):
+        pre = draw(st.sampled_from(STRESS_PREFIX))
+        u1, u2 = draw(st.sampled_from(STRESS_UNIT)), draw(st.sampled_from(STRESS_UNIT))
+        n = draw(st.sampled_from([8, 20, 45, 90, 200]))
+        body = (u1 * n) if draw(st.booleans()) else ((u1 + u2) * (n // 2))
+        lines.append(pre + body + draw(st.sampled_from(["", ")", "')", " then", " &", "]"])))
+    lines.append(draw(st.sampled_from(["end", "end program p", ""])))
     return {"text": "\n".join(lines) + "\n"}
